@@ -3,6 +3,7 @@ from registry_common import COMMON_ASSUME
 ENTRY = dict(
     title="close() always terminates and leaves nothing running",
     design_ref="DESIGN.md section 6 / C12",
+    prop_modules=["C12", "C12Clean"],
     technique="Lean 4 connection machine (C11's, with the write queue's unfinished count, device / sub-device task sets, close and shutdown) + correspondence: close() at every position of generated histories on the real Connection under a virtual-time loop, quiescent-deadlock detection",
     level_text=(
         "Proof (partial, see clauses): `close_partial` - from every reachable state at rest that drains (write queue empty, or connected to a "
@@ -21,13 +22,21 @@ ENTRY = dict(
         "(an unchanged frame-version table queues nothing: the queue cannot grow by re-queueing; harness clause: write queue strictly growing over identical announcements), "
         "`verKinds_eq`; the machine's `finishClose` cancels the connection's retry task (daf0ebe) and `reopen` lets close() be called twice / before connect() / after which "
         "the object is connected again; implementation-only section `held_open_variant`: close() while a retry attempt of the connection's own chain is in flight, the attempt "
-        "succeeding at each loop iteration of close()."),
+        "succeeding at each loop iteration of close(). "
+        "Round 8b (Props/C12Clean.lean): `done_clean` / `close_returned_clean` - the safety half for EVERY schedule: in every reachable state of the machine (any event list, "
+        "close() called anywhere, anything happening while it waits) in which close() has returned, `Clean` holds (transport closed, writer reset, not connected, producers = consumers = "
+        "lostTasks = connTasks = 0, set-up / request / device / sub-device tasks 0, recon idle, every per-name count 0); carried by three invariants over every step (Proofs/ConnClean.lean: "
+        "J - an attempt in flight implies the old transport is gone, `attempt_in_flight_no_writer`; U - no user connect() once close() is called; Q - everything halted while close() is "
+        "inside wait_closed(), `waiting_for_transport_halted`); `reopen_enabled` (the guard of `reopen` never bites), `closed_stays_clean`; `done_clean_open` extends it to schedules in which a "
+        "pending `_open_connection` completes (ok / raises) at any moment (`Conn.openDone`, `Reach1`). Disclosed granularity: `shutdownRun` is one micro event; `late_open_window` is the "
+        "machine's account of an establishment that falls inside it (NOT clean) and the harness section `late_open_variant` walks through it on the implementation - genuine defect "
+        "W5b-defect-1 (residual of D25), report mode until /repo is repaired (LATE_OPEN_DEFAULT in harness/c12.py)."),
     level_note="Partial by construction: liveness is proved for the modelled scheduler and exercised on the real loop; F1 (unbounded Queues.join) is an open known finding.",
     clauses={
         "close() returns within (queued+1)*ioTimeout from states that drain": "theorem (close_partial, modelled scheduler) + correspondence (virtual time taken vs bound)",
         "from every state (full statement)": "stated (close_full), refuted on the F1 states (close_stuck_witness); reproduced on the implementation as KNOWN-FINDING F1",
         "transport closed": "theorem (Closed: wopen = false) + correspondence (closed flag of every fake transport)",
-        "no protocol / connection / device / sub-device task left": "theorem (tasks = 0) + correspondence (asyncio.all_tasks() after close)",
+        "no protocol / connection / device / sub-device task left": "theorem (tasks = 0; for every schedule: done_clean, done_clean_open) + correspondence (asyncio.all_tasks() after close); an establishment inside shutdown()'s clean-up: late_open_window + harness late_open_variant (W5b-defect-1, open)",
         "mixers and thermostats with overlapping indexes": "theorem (subdevices_all_shut) + correspondence",
         "devices shut down when already disconnected": "theorem (devices_shut_when_disconnected) + correspondence",
         "controller stalled in the middle of a frame with requests queued; undecodable / class-less frames before close()": "correspondence (stall S:k before close(), then silence past READER_TIMEOUT and a sending controller; F:u / F:o feeds) + statement-level oracle; the F1 tag additionally requires that the silence was noticed (disconnected, or losses being handled)",
